@@ -26,7 +26,7 @@ OUTSIDE = ["a WWW-Authenticate challenge with neither token nor parameters", "da
 
 SET_PROPS = ["vary", "allow", "content_language"]
 SET_HEADER = {"vary": "Vary", "allow": "Allow", "content_language": "Content-Language"}
-SET_OPS = ["add", "remove", "discard", "update2", "clear", "assign-list", "assign-none", "direct-edit"]
+SET_OPS = ["add", "remove", "discard", "update2", "clear", "assign-list", "assign-none", "direct-edit", "setitem0"]
 
 
 def body_set_view(I, X, prop="vary", ops=("add", "remove")):
@@ -62,6 +62,13 @@ def body_set_view(I, X, prop="vary", ops=("add", "remove")):
             elif op == "clear":
                 I.call(view.clear, ())
                 model = []
+            elif op == "setitem0":
+                # index assignment; replacing an item by a respelling of itself is allowed,
+                # colliding with ANOTHER item would create a duplicate (assumed away)
+                for m in model[1:]:
+                    X.assume(pnot(same_ci(x, m)))
+                I.call(view.__setitem__, (0, x))
+                model[0] = x
             elif op == "assign-list":
                 X.assume(pnot(peq(lower(x), "b")))
                 I.setattr(resp, prop, [x, "b"])
@@ -77,6 +84,9 @@ def body_set_view(I, X, prop="vary", ops=("add", "remove")):
             exc = "KeyError"
             hit = [i for i, m in enumerate(model) if same_ci(x, m)]
             ok = pand(ok, op == "remove" and not hit)
+        except IndexError:
+            exc = "IndexError"
+            ok = pand(ok, op == "setitem0" and not model)
         # coherence after the step
         hdr = I.call(resp.headers.get, (name,))
         exp = None
@@ -260,9 +270,13 @@ def body_scalar(I, X, prop="content_length"):
     n = X.int("n", 0, 99999)
     I.setattr(resp, prop, n)
     back = I.getattr(resp, prop)
-    hdr = I.call(resp.headers.get, ({"content_length": "Content-Length", "age": "Age", "access_control_max_age": "Access-Control-Max-Age"}[prop],))
+    hdr = I.call(resp.headers.get, ({"content_length": "Content-Length", "age": "Age", "access_control_max_age": "Access-Control-Max-Age",
+                                     "retry_after": "Retry-After"}[prop],))
     ok = peq(hdr, pstr(n))
-    if prop == "age":
+    if prop == "retry_after":
+        # reads back as a date (now + n seconds): only the header text is compared
+        ok = pand(ok, back is not None)
+    elif prop == "age":
         ok = pand(ok, back is not None and peq(getattr(back, "seconds_total", None) if hasattr(back, "seconds_total") else int(back.total_seconds()), n))
     else:
         ok = pand(ok, peq(back, n))
@@ -294,6 +308,6 @@ def obligations(tier, seed):
     for ops in itertools.product(["set", "unset", "set-length-none", "set-unsatisfied"], repeat=k):
         out.append({"name": f"content_range[{'+'.join(ops)}]", "body": "body_content_range", "params": {"ops": list(ops)},
                     "opts": {"budget_s": 600, "ctx": ctx}, "witness": ops[:2] == ("set", "unset")})
-    for prop in ("content_length", "age", "access_control_max_age"):
+    for prop in ("content_length", "age", "access_control_max_age", "retry_after"):
         out.append({"name": f"scalar[{prop}]", "body": "body_scalar", "params": {"prop": prop}, "opts": {"budget_s": 600, "ctx": ctx}, "witness": True})
     return out
